@@ -227,7 +227,25 @@ def logical_or(left, right):
     if right == NULL:
         return left
 
+    # Apply associativity and idempotence: a|(b|c) => (a|b)|c and
+    # (a|b)|b => a|b. Without this, repeated derivatives keep growing
+    # and the DFA construction does not terminate (for example 'a*[a-c]*').
+    if isinstance(right, LogicalOr):
+        return logical_or(logical_or(left, right.lhs), right.rhs)
+
+    if any(option == right for option in _alternatives(left)):
+        return left
+
     return LogicalOr(left, right)
+
+
+def _alternatives(expr):
+    """Iterate over the alternatives of a (nested) logical or"""
+    if isinstance(expr, LogicalOr):
+        yield from _alternatives(expr.lhs)
+        yield from _alternatives(expr.rhs)
+    else:
+        yield expr
 
 
 class LogicalOr(Regex):
